@@ -465,6 +465,26 @@ def fold_body(stmts, env, ctors=(), calls=None, max_steps=20000, final=None):
                 raise Raised(name)
             elif isinstance(st, ast.Pass):
                 continue
+            elif isinstance(st, ast.Try) and not st.finalbody:
+                # a raise statement reached inside the body is caught by the first handler that names its class (or a base named Exception / nothing);
+                # a bare `raise` inside the handler raises it again
+                try:
+                    run(st.body)
+                except Raised as e_:
+                    h_ = next((h for h in st.handlers if h.type is None or e_.name.split(".")[-1] in
+                               {ast.unparse(t_).split(".")[-1] for t_ in (h.type.elts if isinstance(h.type, ast.Tuple) else [h.type])} | set()
+                               or ast.unparse(h.type) in ("Exception", "BaseException")), None)
+                    if h_ is None:
+                        # the class hierarchy is not known here: a handler naming another class may still be a base of what was raised
+                        raise NotConst("handler for %s not decidable by name" % e_.name)
+                    if h_.name:
+                        env[h_.name] = "<%s>" % e_.name
+                    try:
+                        run(h_.body)
+                    except Raised as e2_:
+                        raise Raised(e_.name if e2_.name == "reraise" else e2_.name)
+                else:
+                    run(st.orelse)
             else:
                 raise NotConst("statement " + type(st).__name__)
     try:
